@@ -42,6 +42,12 @@ Lemma eval_S f e s :
           | Ne => ret (VBool (negb (Bool.eqb x y))) s2
           | _ => Fail Stuck
           end
+      | VBytes x, VBytes y =>
+          match op with
+          | Eq => ret (VBool (bytes_eqb x y)) s2
+          | Ne => ret (VBool (negb (bytes_eqb x y))) s2
+          | _ => Fail Stuck
+          end
       | _, _ => Fail Stuck
       end
   | EAnd a b =>
@@ -98,7 +104,11 @@ Lemma eval_S f e s :
       end
   | ELen a =>
       do va, s1 <- eval f a s;
-      match va with VList l => ret (VInt (Z.of_nat (length l))) s1 | _ => Fail Stuck end
+      match va with
+      | VList l => ret (VInt (Z.of_nat (length l))) s1
+      | VBytes l => ret (VInt (Z.of_nat (length l))) s1
+      | _ => Fail Stuck
+      end
   | EMin a b =>
       do va, s1 <- eval f a s;
       do vb, s2 <- eval f b s1;
@@ -119,6 +129,24 @@ Lemma eval_S f e s :
   | EList l =>
       do vs, s1 <- eval_list f l s;
       ret (VList vs) s1
+  | EConcat a b =>
+      do va, s1 <- eval f a s;
+      do vb, s2 <- eval f b s1;
+      match va, vb with
+      | VBytes x, VBytes y => ret (VBytes (x ++ y)) s2
+      | _, _ => Fail Stuck
+      end
+  | ESlice a st ln =>
+      do va, s1 <- eval f a s;
+      do vs, s2 <- eval f st s1;
+      do vl, s3 <- eval f ln s2;
+      match va, vs, vl with
+      | VBytes x, VInt i, VInt n =>
+          if (0 <=? i) && (0 <=? n) && (i + n <=? Z.of_nat (length x)) then
+            ret (VBytes (firstn (Z.to_nat n) (skipn (Z.to_nat i) x))) s3
+          else Fail Revert
+      | _, _, _ => Fail Stuck
+      end
   | EPop b p =>
       match base_get b s with
       | None => Fail Stuck
